@@ -186,9 +186,9 @@ CHECKS = {
         "technique": "property-based testing (rapid) of generated producer/consumer scripts in testing/synctest bubbles; multiset/order/termination oracle",
         "rule": ("kinds chans-merge, chans-merge-iface (chan error carrying nil values), replicate, stream-merge, stream-merge-burst (many rounds of inputs that end at the same instant), chans-merge-shared (another goroutine receives from input 0 as well; merged + taken = sent), stream-merge-error-storm (one failing input among idle context-aware ones, 100-500 rounds per case), replicate-iface (chan error with nil values, 0-5 destinations); merges of up to 130 inputs. non-trivial = >= 2 non-empty inputs of different lengths (one closes while another still has values), or arity in {0,1}, or an early Close (stream.Merge); replicate: >= 2 destinations and >= 2 values, or zero destinations; distinct = distinct plan JSON; R=3/10"),
         "assumptions": ["testing/synctest durable-block detection", "rapid v1.3.0; go1.26.8"],
-        "jobs": [{"pkg": "c12merge", "kinds": ["chans-merge", "chans-merge-iface", "replicate", "stream-merge", "stream-merge-burst", "chans-merge-shared", "stream-merge-error-storm", "replicate-iface"], "scale_thorough": 10, "shards_thorough": 16, "replay_reps": 30},
+        "jobs": [{"pkg": "c12merge", "kinds": ["chans-merge", "chans-merge-iface", "replicate", "stream-merge", "stream-merge-burst", "chans-merge-shared", "stream-merge-error-storm", "replicate-iface", "stream-merge-wide"], "scale_thorough": 10, "shards_thorough": 16, "replay_reps": 30},
                  {"pkg": "c12merge", "goarch": "386", "kinds": ["chans-merge", "stream-merge", "stream-merge-burst", "stream-merge-error-storm"], "run": "TestChansMerge$|TestStreamMerge", "scale_quick": 0.1, "scale_thorough": 1, "shards_thorough": 2},
-                 {"pkg": "c12merge", "race": True, "kinds": ["chans-merge", "chans-merge-iface", "replicate", "stream-merge", "stream-merge-burst", "chans-merge-shared", "stream-merge-error-storm", "replicate-iface"], "scale_quick": 0.15, "scale_thorough": 2, "shards_thorough": 4, "replay_reps": 20}],
+                 {"pkg": "c12merge", "race": True, "kinds": ["chans-merge", "chans-merge-iface", "replicate", "stream-merge", "stream-merge-burst", "chans-merge-shared", "stream-merge-error-storm", "replicate-iface", "stream-merge-wide"], "scale_quick": 0.15, "scale_thorough": 2, "shards_thorough": 4, "replay_reps": 20}],
     },
     "C13": {
         "level": "exploration",
